@@ -61,81 +61,6 @@ func condSig(info *types.Info, n ast.Node) string {
 	return strings.Join(sig, " & ")
 }
 
-func ruleSIBviews(w *World, r *Report) {
-	r.Doc("SIB-views", "in the edge store the forward (OutEdges) and reverse (InEdges) halves of AddEdge/RemoveEdge test the same conditions: soft delete marks the ACTIVE version in both, hard delete filters ALL versions in both, and look-ups of the active version agree", 6)
-	rm := w.Func("pkg/core", "DB.RemoveEdge")
-	ad := w.Func("pkg/core", "DB.AddEdge")
-	if rm == nil || ad == nil {
-		r.Und("SIB-views", "anchor:AddEdge/RemoveEdge", "", "anchor lost")
-		return
-	}
-	info := rm.Pkg.TypesInfo
-	// RemoveEdge: the two `if hardDelete {..} else {..}` statements, in source order: forward, reverse
-	var splits []*ast.IfStmt
-	ast.Inspect(rm.Decl.Body, func(n ast.Node) bool {
-		if ifs, ok := n.(*ast.IfStmt); ok {
-			if id, ok := ifs.Cond.(*ast.Ident); ok && id.Name == "hardDelete" && ifs.Else != nil {
-				splits = append(splits, ifs)
-			}
-		}
-		return true
-	})
-	if len(splits) != 2 {
-		r.Und("SIB-views", "RemoveEdge:hard/soft-branches", w.Pos(rm.Decl.Pos()), fmt.Sprintf("expected two `if hardDelete {…} else {…}` statements (forward, reverse), found %d", len(splits)))
-	} else {
-		fh, rh := condSig(info, splits[0].Body), condSig(info, splits[1].Body)
-		fs, rs := condSig(info, splits[0].Else), condSig(info, splits[1].Else)
-		r.Cond(fh == rh, "SIB-views", "RemoveEdge:hard:forward=reverse", w.Pos(splits[1].Pos()), "both filter on {"+fh+"}", fmt.Sprintf("hard delete treats the two views differently: forward keeps by {%s}, reverse by {%s}: outgoing and incoming views disagree after a hard unlink", fh, rh))
-		r.Cond(fs == rs, "SIB-views", "RemoveEdge:soft:forward=reverse", w.Pos(splits[1].Else.Pos()), "both mark on {"+fs+"}", fmt.Sprintf("soft delete selects the version to mark differently: forward {%s}, reverse {%s}: after link→unlink→re-link a later unlink re-stamps the old tombstone in one view and leaves the active entry standing, so the views disagree", fs, rs))
-		r.Cond(fh == "PEER!=peer", "SIB-views", "RemoveEdge:hard:erases-all-versions", w.Pos(splits[0].Pos()), "hard delete keeps exactly the entries of other peers", "hard delete keeps entries by {"+fh+"} instead of {PEER!=peer}: superseded or soft-deleted versions survive a hard unlink and remain visible to as-of queries")
-		r.Cond(strings.Contains(fs, "DeletedAt==0") && strings.Contains(fs, "PEER==peer"), "SIB-views", "RemoveEdge:soft:marks-active-version", w.Pos(splits[0].Else.Pos()), "soft delete selects the active version of the peer", "soft delete does not select {PEER==peer & DeletedAt==0}: it can stamp an already deleted version")
-		// the soft branch stamps the caller's timestamp
-		for i, sp := range splits {
-			stamps := false
-			ast.Inspect(sp.Else, func(n ast.Node) bool {
-				if as, ok := n.(*ast.AssignStmt); ok && len(as.Lhs) == 1 {
-					if sel, ok := as.Lhs[0].(*ast.SelectorExpr); ok && sel.Sel.Name == "DeletedAt" {
-						if id, ok := as.Rhs[0].(*ast.Ident); ok && id.Name == "timestamp" {
-							stamps = true
-						}
-					}
-				}
-				return true
-			})
-			r.Cond(stamps, "SIB-views", fmt.Sprintf("RemoveEdge:soft:stamps-timestamp#%d", i+1), w.Pos(sp.Else.Pos()), "DeletedAt = timestamp", "soft delete does not store the caller's timestamp into DeletedAt (history must carry the journaled time)")
-		}
-	}
-	// AddEdge: active look-ups in forward and reverse list
-	ainfo := ad.Pkg.TypesInfo
-	var loops []*ast.RangeStmt
-	ast.Inspect(ad.Decl.Body, func(n ast.Node) bool {
-		if rs, ok := n.(*ast.RangeStmt); ok {
-			loops = append(loops, rs)
-		}
-		return true
-	})
-	var sigs []string
-	for _, l := range loops {
-		if s := condSig(ainfo, l.Body); s != "" {
-			sigs = append(sigs, s)
-		}
-	}
-	if len(sigs) != 2 {
-		r.Und("SIB-views", "AddEdge:active-lookups", w.Pos(ad.Decl.Pos()), fmt.Sprintf("expected two active-version look-ups (forward, reverse), found %d", len(sigs)))
-	} else {
-		r.Cond(sigs[0] == sigs[1] && strings.Contains(sigs[0], "DeletedAt==0"), "SIB-views", "AddEdge:active-lookup:forward=reverse", w.Pos(ad.Decl.Pos()), "both look up {"+sigs[0]+"}", fmt.Sprintf("AddEdge looks up the existing edge differently in the two views: forward {%s}, reverse {%s}: after a soft unlink a re-link is not mirrored in the incoming view", sigs[0], sigs[1]))
-	}
-	// isActiveAtTime boundary: created <= T < deleted
-	act := w.Func("pkg/core", "isActiveAtTime")
-	if act == nil {
-		r.Und("SIB-views", "anchor:isActiveAtTime", "", "anchor lost")
-		return
-	}
-	as := condSigIdents(act.Pkg.TypesInfo, act.Decl.Body)
-	want := "createdAt<=queryTime & deletedAt==0 & deletedAt==0 & deletedAt>queryTime & queryTime==0"
-	r.Cond(as == want, "SIB-views", "isActiveAtTime:created<=T<deleted", w.Pos(act.Decl.Pos()), "time filter is created <= T < deleted", "time filter comparisons changed to {"+as+"} (expected {"+want+"}): as-of queries at a timestamp boundary include or exclude the wrong version")
-}
-
 func condSigIdents(info *types.Info, n ast.Node) string {
 	var sig []string
 	ast.Inspect(n, func(m ast.Node) bool {
@@ -383,11 +308,9 @@ func ruleSIB4(w *World, r *Report) {
 		for _, f := range append([]*ssa.Function{fn}, closuresOf(fn)...) {
 			for _, in := range findInstrs(f, callsTo(gar)) {
 				if s, ok := constString(in.(*ssa.Call).Call.Args[2]); ok {
-					if s == "both" {
-						set["in"], set["out"] = true, true
-					} else {
-						set[s] = true
-					}
+					// "both" is NOT the union of the two views: GetAllRelations keys its result by relation type only, so
+					// for a type that occurs in both directions the incoming list replaces the outgoing one
+					set[s] = true
 				}
 			}
 		}
@@ -705,4 +628,73 @@ func ruleGRDpath(w *World, r *Report) {
 	})
 	r.Cond(rec, "GRD-path", "traversePath:depth+1", w.Pos(tp.Decl.Pos()), "recursion passes depth+1", "traversePath recurses without incrementing the depth: a cyclic relation recurses until the stack overflows")
 	r.Cond(guard, "GRD-path", "traversePath:depth-cap", w.Pos(tp.Decl.Pos()), "returns beyond a constant depth cap", "traversePath has no constant depth cap any more")
+}
+
+// ruleGRDtime: a time-travel query reads every edge as of the queried time.
+func ruleGRDtime(w *World, r *Report) {
+	r.Doc("GRD-time", "in every engine function that takes the query time (a parameter named atTime), each call that reads a node's neighbourhood (edges, incoming, relations, connections) is given that parameter: forward and backward frontier, outgoing and incoming view all look at the same moment", 4)
+	n := 0
+	for _, fi := range w.ModuleFuncs() {
+		if relPkg(fi.Obj) != "pkg/engine" {
+			continue
+		}
+		fn := w.SSAFunc(fi.Obj)
+		if fn == nil {
+			continue
+		}
+		var at *ssa.Parameter
+		for _, p := range fn.Params {
+			if p.Name() == "atTime" && basicKind(p.Type()) == types.Int64 {
+				at = p
+			}
+		}
+		if at == nil {
+			continue
+		}
+		derives := func(v ssa.Value) bool {
+			for _, leaf := range phiLeaves(capValue(v)) {
+				if leaf == ssa.Value(at) || capValue(leaf) == ssa.Value(at) {
+					return true
+				}
+			}
+			return false
+		}
+		per := 0
+		for _, f := range append([]*ssa.Function{fn}, closuresOf(fn)...) {
+			for _, b := range f.Blocks {
+				for _, in := range b.Instrs {
+					c, ok := in.(*ssa.Call)
+					if !ok {
+						continue
+					}
+					g := c.Call.StaticCallee()
+					if g == nil || !inModule(g) {
+						continue
+					}
+					nm := g.Name()
+					reads := false
+					for _, kw := range []string{"Edges", "Incoming", "Relations", "Rels", "Connections", "Links", "Neighbors", "Neighbours"} {
+						if strings.Contains(nm, kw) {
+							reads = true
+						}
+					}
+					if !reads || strings.HasPrefix(nm, "Set") || strings.HasPrefix(nm, "Add") || strings.HasPrefix(nm, "Remove") {
+						continue
+					}
+					per++
+					n++
+					has := false
+					for _, a := range c.Call.Args {
+						if basicKind(a.Type()) == types.Int64 && derives(a) {
+							has = true
+						}
+					}
+					r.Cond(has, "GRD-time", fmt.Sprintf("%s:neighbourhood-read#%d:%s", shortName(fi.Obj), per, nm), w.Pos(c.Pos()), "the lookup receives the query time", shortName(fi.Obj)+" reads a neighbourhood through "+nm+" without passing its atTime on: that side of the traversal sees the graph as it is now while the rest sees it as of the queried time — a time-travel query returns edges that did not exist then, or misses ones that did")
+				}
+			}
+		}
+	}
+	if n < 4 {
+		r.Und("GRD-time", "anchor:time-travel-reads", "", fmt.Sprintf("expected ≥4 neighbourhood reads in functions that take atTime, found %d", n))
+	}
 }
